@@ -1,5 +1,5 @@
 # C02 — recursive multi-knee detection terminates, is well-formed and self-similar
-import sys, math, random, itertools, importlib
+import sys, math, time, signal, random, itertools, importlib
 from core import *
 import gen
 
@@ -79,12 +79,13 @@ class C02:
     trusted = ['modelled: multi_knee.multi_knee (stack loop, gates, offsets, final sort); oracles: lf.smape_points / lf.linear_r2_points of '
                'lf.linear_fit_points(points[l:r]) and <detector>.knee(points[l:r]) evaluated by the harness on the slices; '
                'loop iterations counted with sys.monitoring line events on the `stack.pop()` line']
-    timeout = 20.0
+    timeout = 20.0          # harness-level guard per case
+    impl_timeout = 5.0      # the implementation's own budget per call (typical run: milliseconds)
     shard = 250
 
     # ------------------------------------------------------------------ generation
     def generate(self, rng, tier):
-        ncurves = {'quick': 200, 'search': 80, 'thorough': 3600}.get(tier, 200)
+        ncurves = {'quick': 400, 'search': 80, 'thorough': 3600}.get(tier, 200)
         nmax = {'quick': 16, 'search': 12, 'thorough': 64}.get(tier, 16)
         configs = list(itertools.product(range(4), range(len(SPECS)), range(len(VIAS))))
         rng.shuffle(configs)
@@ -141,6 +142,8 @@ class C02:
         import kneeliverse.multi_knee as mkm
         import kneeliverse.metrics as metrics
         c = dict(c)
+        c.pop('timeout', None)
+        t_end = time.monotonic() + self.timeout - 1.0
         det, via, cost, t2 = c['det'], c['via'], c['cost'], int(c['t2'])
         mod = importlib.import_module('kneeliverse.' + det)
         pts = np.ascontiguousarray(np.array(c['points'], dtype=float))
@@ -270,10 +273,18 @@ class C02:
                 seen_k[key] = None if v is None else v
             return v
 
-        def impl(p):
-            if via == 'wrapper':
-                return call(mod.multi_knee, p, t1, t2)
-            return call(mkm.multi_knee, mod.knee, p, t1, t2, metrics.Metrics[cost])
+        def impl(p, secs):
+            # the implementation under its own alarm (a run that does not return is an output, not a harness failure);
+            # afterwards the harness-level alarm of core._run_one is re-armed with what is left of its budget
+            signal.setitimer(signal.ITIMER_REAL, secs)
+            try:
+                if via == 'wrapper':
+                    return call(mod.multi_knee, p, t1, t2)
+                return call(mkm.multi_knee, mod.knee, p, t1, t2, metrics.Metrics[cost])
+            except Timeout:
+                return ('exc', 'Timeout')
+            finally:
+                signal.setitimer(signal.ITIMER_REAL, max(0.2, t_end - time.monotonic()))
 
         m = _monitor(mkm)
         lf.smape_points, lf.linear_r2_points, mod.knee = w_smape, w_r2, w_knee
@@ -282,7 +293,7 @@ class C02:
                 m['cnt'][0] = 0
                 sys.monitoring.set_local_events(m['tool'], m['code'], sys.monitoring.events.LINE)
             try:
-                st, out = impl(pts)
+                st, out = impl(pts, self.impl_timeout)
             finally:
                 if m is not None:
                     sys.monitoring.set_local_events(m['tool'], m['code'], 0)
@@ -290,7 +301,7 @@ class C02:
             lf.smape_points, lf.linear_r2_points, mod.knee = o_smape, o_r2, o_knee
         c['out'] = as_nat_list(out) if st == 'ok' else None
         c['exc'] = None if st == 'ok' else str(out)
-        c['pops'] = m['cnt'][0] if m is not None else None
+        c['pops'] = m['cnt'][0] if (m is not None and not (st == 'exc' and out == 'Timeout')) else None
 
         # ---- oracle tables: complete for n <= 8, otherwise the keys the implementation touched and the keys the recursion needs
         if n <= 8:
@@ -323,8 +334,8 @@ class C02:
         k0 = K(0, n)
         c['outL'] = c['outR'] = None
         if isinstance(k0, int) and k0 + 1 <= n:
-            sl, ol = impl(pts[:k0 + 1])
-            sr, orr = impl(pts[k0 + 1:])
+            sl, ol = impl(pts[:k0 + 1], self.impl_timeout / 2)
+            sr, orr = impl(pts[k0 + 1:], self.impl_timeout / 2)
             c['outL'] = as_nat_list(ol) if sl == 'ok' else None
             c['outR'] = as_nat_list(orr) if sr == 'ok' else None
         return c
